@@ -41,6 +41,7 @@ pub fn generate(stream: &str, seed: u64, n: usize, emit: &mut dyn FnMut(String))
 }
 
 pub fn run_line(line: &str) -> String {
+	crate::svser::SKIP_NAMES.with(|s| s.borrow_mut().clear());
 	let cmd = line.split_ascii_whitespace().next().unwrap_or("");
 	let r = std::panic::catch_unwind(|| match cmd {
 		"" => Ok(String::new()),
